@@ -54,6 +54,7 @@ class PathCtx:
         self.notes = {}
         self.pc_len = 0
         self.quant_ids = set()  # ast ids of quantified axioms in the solver
+        self.axioms_all = []    # every axiom ever added (axioms added inside a solver scope are re-added after its pop)
         self.pending = []      # constraints not yet handed to the solver
         self.facts = {}        # ast id of a decided condition -> truth value on this path
         self.wit = None        # a model of the current path condition (or None)
@@ -116,11 +117,20 @@ class PathCtx:
         if key not in self.axiom_keys:
             self.axiom_keys.add(key)
             for a in mk():
-                self.solver.add(a)
-                if z3.is_quantifier(a):
-                    self.quant_ids.add(a.get_id())
-                else:
-                    self.qf.add(a)
+                self.axioms_all.append(a)
+                self._add_axiom(a)
+
+    def _add_axiom(self, a):
+        self.solver.add(a)
+        if z3.is_quantifier(a):
+            self.quant_ids.add(a.get_id())
+        else:
+            self.qf.add(a)
+
+    def _dummy(self):
+        if False:
+            for a in ():
+                pass
 
     def _cvc5_unsat(self, neg):
         """second back end for queries z3 leaves undecided: /usr/bin/cvc5 on the SMT-LIB dump (hard wall-clock kill)"""
@@ -326,6 +336,7 @@ class PathCtx:
                 self._flush()
                 self.solver.push()
                 self.qf.push()
+                n_ax = len(self.axioms_all)
                 self._base_scopes = self.solver.num_scopes()
                 self.decisions = list(prefix)
                 self.pos = 0
@@ -342,6 +353,8 @@ class PathCtx:
                     self.pending = []
                     self.solver.pop()
                     self.qf.pop()
+                    for ax in self.axioms_all[n_ax:]:
+                        self._add_axiom(ax)
                     self._base_scopes = self.solver.num_scopes()
                 work.extend(self.forks)
         finally:
